@@ -128,7 +128,131 @@ class Nist(Cont):
         return out
 
 
-CONTS = [Nist()]
+class Voc(Cont):
+    """Creative Voice: type 1 block (PCM_U8 mono), type 8 + type 1 (PCM_U8 stereo), type 9 (PCM_16, u-law, A-law), terminator byte"""
+    name, major, driver = "voc", 0x08, "small3"
+    rates = [1, 3906, 3907, 3922, 8000, 11025, 22050, 44100, 62500, 65536, 333334, 1000000, 1000001, 128000000, 2 ** 31 - 1]
+    lengths = [0, 1, 2, 3, 5, 8, 4097]
+    kf_ids = ("KF-VOC-MONO-G711", "KF-VOC-UPDATE")
+
+    def channels(self, f):
+        return [1, 2]
+
+    def hlen(self, j):
+        return (32 if j.ch == 1 else 40) if j.f.codec == 5 else 42
+
+    def quant(self, sr):
+        # the 8-bit divisor of the type 1 block (driver `quant`); the 16-bit one is tied through the header bytes
+        return 1000000 // (256 - ((256 - 1000000 // sr) % 256))
+
+    def rate_ok_job(self, j, got):
+        """C04 for the divisor fields: inside the range the field can hold, the documented quantisation 10^6 / (10^6 / sr)
+        (128 * 10^6 for the 16-bit field); outside it the format cannot express the rate and nothing is demanded but a
+        positive rate; the type 9 block stores the rate itself"""
+        if j.f.codec != 5:
+            return got == j.sr
+        unit, top = (1000000, 256) if j.ch == 1 else (128000000, 65536)
+        d = unit // j.sr
+        if 1 <= d < top:
+            return got == unit // d
+        return got >= 1
+
+    def rate_ok(self, sr, got):
+        return self.rate_ok_job(self._job, got)
+
+    def size_problems(self, j, b, frames):
+        out = []
+        hl = self.hlen(j)
+        if len(b) < hl + 1:
+            return ["file shorter than header + terminator"]
+        if b[:26] != b"Creative Voice File\x1a\x1a\x00\x14\x01\x1f\x11":
+            out.append("file header %s" % b[:26].hex())
+        if b[-1] != 0:
+            out.append("the last byte is not the terminator 00")
+        audio = len(b) - hl - 1
+        if audio != j.n * j.bw:
+            out.append("file holds %d audio bytes, %d written" % (audio, j.n * j.bw))
+        blk = b[26:hl]
+        if j.f.codec == 5:
+            if j.ch == 2:
+                d16 = (65536 - 128000000 // j.sr) % 65536
+                if blk[:8] != bytes([8, 4, 0, 0, d16 & 255, d16 >> 8, 0, 1]):
+                    out.append("type 8 block %s" % blk[:8].hex())
+                blk = blk[8:]
+            ln = blk[1] | blk[2] << 8 | blk[3] << 16
+            if blk[0] != 1 or blk[4] != (256 - 1000000 // j.sr) % 256 or blk[5] != 0:
+                out.append("type 1 block %s" % blk.hex())
+            if ln != (audio + 2) % 2 ** 24:
+                out.append("type 1 block length %d, the block holds 2 + %d bytes" % (ln, audio))
+        else:
+            ln = blk[1] | blk[2] << 8 | blk[3] << 16
+            want = bytes([9]) + blk[1:4] + struct.pack("<IBBHI", j.sr, 16 if j.f.codec == 2 else 8, j.ch, {2: 4, 0x10: 7, 0x11: 6}[j.f.codec], 0)
+            if blk != want:
+                out.append("type 9 block %s, expected %s" % (blk.hex(), want.hex()))
+            if ln != (audio + 12) % 2 ** 24:
+                out.append("type 9 block length %d, the block holds 12 + %d bytes" % (ln, audio))
+        return out
+
+    def known(self, j, frames_total, probs):
+        # KF-VOC-MONO-G711: u-law / A-law, one channel: the terminator is counted (frames N+1, block length one too long)
+        if j.f.codec in (0x10, 0x11) and j.ch == 1:
+            sig = ("frames %d, %d written" % (j.n + 1, j.n), "type 9 block length %d, the block holds 12 + %d bytes" % ((j.n + 13) % 2 ** 24, j.n))
+            return "KF-VOC-MONO-G711" if all(p in sig for p in probs) else None
+        # KF-VOC-UPDATE: PCM_U8 (type 1 block): the image after a header update re-opens one byte short
+        if j.f.codec == 5 and j.parts[0] > 0:
+            def short(p):
+                m = re.search(r"reports open=ok .* frames=(\d+) ", p)
+                return p.startswith("[C11]") and m and int(m.group(1)) == j.parts[0] - 1 and " ch=%d " % j.ch in p
+            return "KF-VOC-UPDATE" if all(short(p) for p in probs) else None
+        return None
+
+    def hdr_len(self, b):
+        ty = b[26] if len(b) > 26 else 0
+        return {1: 32, 8: 40, 9: 42}.get(ty, 27)
+
+    def mutants(self, b, rng):
+        out = []
+        hl = self.hdr_len(b)
+        for v in (0x010A, 0x0114, 0x0113, 0x0100, 0):
+            out.append(("version=%04x" % v, b[:22] + struct.pack("<H", v) + b[24:]))
+        for v in (0, 26, 27, 0xFFFF):
+            out.append(("dataoffset=%d" % v, b[:20] + struct.pack("<H", v) + b[22:]))
+        for ty in (0, 1, 2, 3, 4, 7, 8, 9, 10, 255):
+            out.append(("type=%d" % ty, b[:26] + bytes([ty]) + b[27:]))
+        lpos = {32: 27, 40: 35, 42: 27}.get(hl)
+        if lpos:
+            ln = b[lpos] | b[lpos + 1] << 8 | b[lpos + 2] << 16
+            for v in (0, 1, 2, ln - 2, ln - 1, ln + 1, ln + 2, ln + 3, ln + 4, ln + 5, ln + 6, ln + 7, len(b) - 31, len(b) - 30, (len(b) - 39) // 2, 0xFFFFFF, 0x800000):
+                if 0 <= v < 2 ** 24:
+                    out.append(("len=%d" % (v - ln), b[:lpos] + struct.pack("<I", v)[:3] + b[lpos + 3:]))
+            for d in (1, 2, 3, 5, 6):
+                out.append(("grow+%d" % d, b[:-1] + bytes(d) + b[-1:]))
+                out.append(("tail+%d" % d, b + bytes(d)))
+                if len(b) - hl > d:
+                    out.append(("shrink-%d" % d, b[:-1 - d] + b[-1:]))
+                    out.append(("cut-%d" % d, b[:-d]))
+        if hl == 42:
+            for v in (0, 1, 2, 3, 4, 5, 6, 7, 8, 0x0100, 0xFFFF):
+                out.append(("enc=%d" % v, b[:36] + struct.pack("<H", v) + b[38:]))
+                out.append(("enc16=%d" % v, b[:34] + bytes([16]) + b[35:36] + struct.pack("<H", v) + b[38:]))
+            for v in (0, 1, 2, 3, 255):
+                out.append(("ch=%d" % v, b[:35] + bytes([v]) + b[36:]))
+            for v in (0, 1, 0x7FFFFFFF, 0x80000000, 0xFFFFFFFF):
+                out.append(("rate=%d" % v, b[:30] + struct.pack("<I", v) + b[34:]))
+        if hl == 40:
+            for v in (0, 1, 2, 255):
+                out.append(("stereo=%d" % v, b[:33] + bytes([v]) + b[34:]))
+            for v in (0, 1, 0xFFFF, 0x8000):
+                out.append(("rate16=%d" % v, b[:30] + struct.pack("<H", v) + b[32:]))
+            for v in (0, 2, 8, 9):
+                out.append(("type2=%d" % v, b[:34] + bytes([v]) + b[35:]))
+        if hl == 32:
+            for v in (0, 1, 128, 255):
+                out.append(("rate8=%d" % v, b[:30] + bytes([v]) + b[31:]))
+        return out
+
+
+CONTS = [Nist(), Voc()]
 
 
 def run(ctx, found=False, only=None):
